@@ -87,6 +87,20 @@ def damaged_bytes(orig, fault):
         return bytes(((i * 37 + fault["byte"]) % 251 + (i % 5)) % 256 for i in range(max(64, min(len(orig), 400))))
     if mode == "junk_text":
         return b"hello world\nthis is not a verification file\n1 2 3\n"
+    if mode == "partial_line":
+        # a producer that crashed and restarted in append mode: the beginning of a line it had written before
+        # (its header in every second case) sits between two complete rows - a row with too few columns
+        lines = orig.split(b"\n")
+        body = [i for i, l in enumerate(lines) if l.strip() and not l.startswith(b"#")]
+        if len(body) < 2:
+            return orig[: len(orig) // 2]
+        src = lines[body[0]] if fault["byte"] % 2 == 0 else lines[body[1 + int(fault["frac"] * 997) % (len(body) - 1)]]
+        toks = src.split()
+        if len(toks) < 2:
+            return orig[: len(orig) // 2]
+        frag = b" ".join(toks[: 1 + (fault["byte"] // 2) % (len(toks) - 1)])
+        at = body[1 + int(fault["frac"] * (len(body) - 1)) % (len(body) - 1)]
+        return b"\n".join(lines[:at] + [frag] + lines[at:])
     if mode == "nc_nodims":
         return b"__nc_nodims__"
     if mode == "flip":
